@@ -1,6 +1,7 @@
 package c10
 
 import (
+	"errors"
 	"context"
 	"fmt"
 	"sort"
@@ -42,6 +43,8 @@ type scen struct {
 	workers int
 	bound   int
 	cap     int // event pool capacity (default 8)
+	errHead int // the first errHead records of every partition arrive in a fetch that also carries an error (a later batch of
+	// that fetch was corrupt): the client's cursor is past them, so they must be processed like any other record
 }
 
 type recState struct {
@@ -289,6 +292,10 @@ func body(sc scen) {
 				Value: []byte(fmt.Sprintf(`{"id":%d%s}`, r.id, d))})
 			r.consumed = true // handed to file.d by the client library
 		}
+		if n := o.sc.errHead; n > 0 && n < len(records) {
+			pc.Feed(kgo.FetchTopicPartition{Topic: o.topics[k.t], FetchPartition: kgo.FetchPartition{Partition: k.p, Records: records[:n], Err: errors.New("verif: batch after these records failed its CRC check")}})
+			records = records[n:]
+		}
 		pc.Feed(kgo.FetchTopicPartition{Topic: o.topics[k.t], FetchPartition: kgo.FetchPartition{Partition: k.p, Records: records}})
 	}
 	need := 0
@@ -360,6 +367,7 @@ func scenarios(thorough bool) []scen {
 	s = append(s, scen{name: "1p-4rec-cap2-w2", topics: 1, count: 1, workers: 2, bound: 2, cap: 2, recs: []rec{{0, 0, 5, 1, false}, {0, 0, 6, 1, false}, {0, 0, 7, 1, false}, {0, 0, 8, 1, false}}})
 	s = append(s, scen{name: "1p-5rec-cap2-w1", topics: 1, count: 1, workers: 1, bound: 1, cap: 2, recs: []rec{{0, 0, 5, 1, false}, {0, 0, 6, 1, false}, {0, 0, 7, 1, false}, {0, 0, 8, 1, false}, {0, 0, 9, 1, false}}})
 	// a configured topics list that names a topic twice before another one
+	s = append(s, scen{name: "1p-4rec-fetch-error-head", topics: 1, count: 1, workers: 1, bound: 1, errHead: 2, recs: []rec{{0, 0, 10, 1, false}, {0, 0, 11, 1, false}, {0, 0, 12, 1, false}, {0, 0, 13, 1, false}}})
 	s = append(s, scen{name: "dup-topic-2t", dup: true, topics: 2, count: 1, workers: 1, bound: 1, recs: []rec{{1, 3, 5, 1, false}, {0, 3, 6, 1, false}, {1, 3, 6, 1, false}}})
 	if thorough {
 		s = append(s, scen{name: "1p-4rec-b2-w2", topics: 1, count: 2, workers: 2, bound: 2, recs: []rec{{0, 3, 10, 2, false}, {0, 3, 11, 2, false}, {0, 3, 12, 2, true}, {0, 3, 13, 2, false}}})
